@@ -350,7 +350,8 @@ class CallMixin:
                         return [(st, None)]
                     if verdict == "match":
                         return [(st, textlex.MatchModel(
-                            {k: (None if i is None else tx.pieces[i]) for k, i in groups.items()}))]
+                            {k: (None if g is None else tx.pieces[g[1]] if g[0] == "piece"
+                                 else g[1]) for k, g in groups.items()}))]
                     raise OutOfReach("lexing lemma for %r on %r undecided: %s" % (
                         recv.obj.pattern[:30], tx, [o for o in obs if o[1] is not True][:2]))
             raise OutOfReach("method %s of a real object on symbolic arguments" % name)
